@@ -50,6 +50,10 @@ OBF_NAMES = ["hostname", "ip", "keyword", "mac", "password"]
 
 
 def gen_case(rng, tier, idx):
+    if idx % 200 == 199:
+        # the parallel run strategy: several specs with different exemptions cleaned at once through ONE Cleaner
+        from vpmon.props import c10
+        return c10.gen_concurrent(rng)
     cfg = T.gen_config(rng)
     n = rng.randint(1, 14)
     base = "~~%d" % rng.randint(0, 10 ** 6)
@@ -76,6 +80,10 @@ def gen_case(rng, tier, idx):
                     if seen_ips[sl[1]] > 2:
                         sl[0], sl[1], sl[2] = "fill", "LISTEN", "LISTEN"
             ls["d"] = pad
+            if entry in ("content", "provider") and rng.random() < 0.15 and ls["slots"][-1][0] == "ip" and ls["slots"][-1][2] == ls["slots"][-1][1]:
+                # the address is the very last thing on the line: the re-padding then fails and the whole spec is refused
+                # (an exception, nothing is emitted) - it must never come out with the address still in it
+                ls["no_tail"] = True
             lines.append(ls)
     no_obf = rng.sample(OBF_NAMES, rng.choice([0, 0, 0, 1, 2])) if rng.random() < 0.5 else []
     return {"cfg": cfg, "lines": lines, "entry": entry, "no_obfuscate": no_obf, "no_redact": rng.random() < 0.15,
@@ -83,6 +91,8 @@ def gen_case(rng, tier, idx):
 
 
 def nontrivial(spec):
+    if spec.get("kind") == "concurrent":
+        return True
     kinds = set(s[0] for ls in spec["lines"] for s in ls["slots"]) - {"fill"}
     return len(kinds) >= 2
 
@@ -96,7 +106,13 @@ def clean_via(spec, cleaner, lines, ctx):
     if entry == "content":
         if width:
             ctx.count("width_preserving_runs")
-            return cleaner.clean_content(list(lines), no_obfuscate=list(no_obf), no_redact=no_red, width=True)
+            try:
+                return cleaner.clean_content(list(lines), no_obfuscate=list(no_obf), no_redact=no_red, width=True)
+            except Exception as ex:
+                if "SubIPError" in repr(ex) and any(ls.get("no_tail") for ls in spec["lines"]):
+                    ctx.count("specs_refused_by_the_width_preserving_path")
+                    return []
+                raise
         return cleaner.clean_content(list(lines), no_obfuscate=list(no_obf), no_redact=no_red)
     base = tempfile.mkdtemp(prefix="vpc08_")
     try:
@@ -133,6 +149,9 @@ def clean_via(spec, cleaner, lines, ctx):
             from insights.core.exceptions import ContentException
             if isinstance(ex, ContentException):
                 return []
+            if width and "SubIPError" in repr(ex) and any(ls.get("no_tail") for ls in spec["lines"]):
+                ctx.count("specs_refused_by_the_width_preserving_path")
+                return []
             raise
         with open(dst) as f:
             return f.read().split("\n")
@@ -141,6 +160,10 @@ def clean_via(spec, cleaner, lines, ctx):
 
 
 def run_case(spec, ctx):
+    if spec.get("kind") == "concurrent":
+        from vpmon.props import c10
+        # what a spec keeps secret must not depend on which other spec another thread is cleaning at the same moment
+        return c10.run_concurrent(spec, ctx, mechanism="sensitive-content-handled-differently-when-threads-share-the-cleaner")
     cfg = spec["cfg"]
     cleaner = T.make_cleaner(cfg)
     specs = spec["lines"]
